@@ -471,7 +471,8 @@ read_chunk()
     assert(header.compression == 0);
     assert(header.version == 0);
     auto chunk_reader = stream_.make_decoder(header.payload_length);
-    if (header.version != 0) {
+    if (header.version != 0 || header.compression != 0) {
+        // unknown chunk version, or a compressed payload (no compression scheme is specified yet, the field must be 0)
         if (header.isMandatory()) {
             state_ = ReadState::ErrorUnsupportedChunkVersion;
             return;
